@@ -88,7 +88,27 @@ pub fn generate(tier: &str, rng: &mut Rng) -> Vec<String> {
             evs.push("t0".into());
         }
         let dir = if rng.chance(1, 2) { "req" } else { "resp200" };
-        out.push(format!("p{}", DecCase { dir: dir.into(), enc, max: None, buf_size: *rng.pick(&BUF_SIZES), evs, stream: bytes, extra_polls: 2 }.line()));
+        out.push(DecCase { dir: dir.into(), enc, max: None, buf_size: *rng.pick(&BUF_SIZES), evs, stream: bytes, extra_polls: 2 }.pline());
+    }
+    // valid protobuf no encoder would write (unknown fields of every wire type, groups, repeated and
+    // reordered fields, non-minimal varints): decoded to the message prost itself reads from it
+    for _ in 0..n / 6 {
+        let enc = *rng.pick(&ENCS);
+        let k = 1 + rng.below(3) as usize;
+        let mut bytes = Vec::new();
+        let mut starts = Vec::new();
+        for _ in 0..k {
+            let m = if rng.chance(2, 3) { gen_pb_unusual_valid(rng) } else { gen_any_msg(rng, 30) };
+            starts.push(bytes.len());
+            match enc {
+                Some(e) if rng.chance(1, 2) => bytes.extend(frame(1, &oracle_compress(e, &m))),
+                _ => bytes.extend(frame(0, &m)),
+            }
+        }
+        let style = rng.below(4);
+        let chunks = chunkings(rng, &bytes, &starts, style);
+        let evs = events_from_chunks(rng, chunks, true);
+        out.push(DecCase { dir: "req".into(), enc, max: None, buf_size: *rng.pick(&BUF_SIZES), evs, stream: bytes, extra_polls: 2 }.pline());
     }
     if thorough {
         // small-scope exhaustive: every chunking (all 2^(n-1) cut sets) of short streams
